@@ -2,7 +2,8 @@ import Verif.Proofs.LangVM4
 /-
 Forward simulation (C34), fourth stage: invocations.  Built-ins `log` / `assert`, calls of compiled
 user functions (a new activation, arguments bound to parameter slots, `return`), in programs whose
-invocations stand in statement position with call-free arguments.
+invocations stand in statement position (value of a declaration / assignment / return, expression
+statement, condition) with call-free arguments.
 -/
 namespace Verif.Model.Lang.VM
 open Verif.Model.Lang
@@ -470,14 +471,15 @@ end Verif.Model.Lang.VM
 
 namespace Verif.Model.Lang.VM
 open Verif.Model.Lang
-/-- example program: `fun f(x: Int): Int { log(x); return x + 1 }`
-`fun main(): Int { var i = 0; while i < 2 { i = f(i) }; log(i); return i }` -/
+/-- example program: `fun f(x: Int): Int { log(x); return x + 1 }`, `fun small(x: Int): Bool { return x < 2 }`,
+`fun main(): Int { var i = 0; while small(i) { i = f(i) }; log(i); return i }` -/
 def exProg : Program :=
   ⟨[⟨"f", [⟨"x", .int .int⟩], .int .int,
       [.expr (.call "log" [.var "x"]), .ret (some (.binary .add (.var "x") (.intLit .int 1)))]⟩,
+    ⟨"small", [⟨"x", .int .int⟩], .bool, [.ret (some (.binary .lt (.var "x") (.intLit .int 2)))]⟩,
     ⟨"main", [], .int .int,
       [.decl false "i" (.int .int) (.intLit .int 0),
-       .while (.binary .lt (.var "i") (.intLit .int 2)) [.assign (.var "i") (.int .int) (.call "f" [.var "i"])],
+       .while (.call "small" [.var "i"]) [.assign (.var "i") (.int .int) (.call "f" [.var "i"])],
        .expr (.call "log" [.var "i"]),
        .ret (some (.var "i"))]⟩], []⟩
 
